@@ -34,7 +34,7 @@ def advance(n):
             ufl.Constant(m)
 
 
-KINDS = ["coef-only", "one-const", "consts", "two-mesh", "mixed", "indices", "variables", "args"]
+KINDS = ["coef-only", "one-const", "consts", "two-mesh", "mixed", "indices", "variables", "args", "multi-mesh"]
 
 
 def build(k, seed):
@@ -45,7 +45,14 @@ def build(k, seed):
     w.args = {(): w.args[()][:2], (2,): [], (2, 2): []}     # one test and one trial space per form
     # restrict the pools according to the kind (the class of the known finding needs >= 2 constants
     # or quantities on >= 2 meshes in one form)
-    if kind in ("coef-only", "indices", "variables", "args"):
+    extra = []
+    if kind == "multi-mesh":
+        # coefficients living on several meshes that are NOT integration domains (no repr-ordered terminal
+        # on them, so the kind stays outside the class of the known finding)
+        for _ in range(4):
+            mx = ufl.Mesh(elements.LagrangeElement(ufl.triangle, 1, (2,)))
+            extra.append(ufl.Coefficient(ufl.FunctionSpace(mx, elements.LagrangeElement(ufl.triangle, 1, ()))))
+    if kind in ("coef-only", "indices", "variables", "args", "multi-mesh"):
         w.consts = {sh: [] for sh in w.consts}
         single_mesh(w)
     elif kind == "one-const":
@@ -68,6 +75,9 @@ def build(k, seed):
                 for cc in w.consts[()][1:]:
                     prod = prod * cc
                 e = e + prod
+        if kind == "multi-mesh":
+            rng.shuffle(extra)
+            e = e + extra[0] * extra[1] + extra[2] / (extra[3] + 2)
         if kind == "two-mesh":
             xs = [ufl.SpatialCoordinate(m) for m in w.meshes]
             e = e + xs[0][0] * xs[1][0] * ufl.CellVolume(w.m2) * ufl.CellVolume(w.m1)
